@@ -710,6 +710,145 @@ def unit_getitem(nfin, ninf, timeout_ms=10000):
 
 
 # ======================================================================================
+# finite-dimension-only indices: views
+# ======================================================================================
+
+
+def unit_getitem_view(kinds, ninf, timeout_ms=10000):
+    """BlockSeries.__getitem__ on an index that names only the finite dimensions (len(item) == len(shape), n_infinite >= 1).
+    kinds: per finite dimension one of  int | npint | slice | list  (values symbolic / opaque).
+      all entries integers (Python or numpy)  =>  a BlockSeries of shape (), same n_infinite and dimension names, whose element `orders` is self[item + orders]
+      otherwise  =>  a BlockSeries whose shape is the shape numpy gives for np.empty(self.shape)[item], same n_infinite and dimension names, whose element
+                     (v, orders) is entry v of self[item + orders] with masked entries replaced by zero (read through one packed intermediate series, so that
+                     the parent is asked once per order tuple); nothing is evaluated by creating the view."""
+    from contracts.formats import T
+    node = frontend.find(MODULE, "BlockSeries.__getitem__")
+    all_int = all(k in ("int", "npint") for k in kinds)
+    nview = sum(1 for k in kinds if k == "slice") + (1 if any(k == "list" for k in kinds) else 0)   # numpy: slices keep their axis, all lists broadcast to one
+
+    class VT(T):
+        METHODS = T.METHODS | {"filled"}
+
+        def m_getitem(self, eng, key):
+            return VT("[]", self, key)
+
+    class NpInt(T):
+        def m_isinstance(self, eng, clsname):
+            return clsname in ("integer", "np.integer", "Integral", "generic")
+
+    class SliceItem(T):
+        def m_isinstance(self, eng, clsname):
+            return clsname == "slice"
+
+    class ListItem(T):
+        def m_isinstance(self, eng, clsname):
+            return clsname in ("list", "Sequence")
+
+    def harness(eng):
+        made = []
+        reads = []
+        item_entries = []
+        for d, k in enumerate(kinds):
+            if k == "int":
+                item_entries.append(SI(eng.fresh(f"fin{d}")))
+            else:
+                item_entries.append({"npint": NpInt, "slice": SliceItem, "list": ListItem}[k](f"item{d}"))
+        item = STup(item_entries)
+        shape = STup([SI(eng.fresh(f"shape{d}")) for d in range(len(kinds))])
+        names = T("dimension_names")
+
+        class Parent(Model):
+            def m_getattr(self, e, name):
+                if name == "shape":
+                    return shape
+                if name == "n_infinite":
+                    return ninf
+                if name == "dimension_names":
+                    return names
+                if name in ("_check_finite", "_check_number_perturbations", "_data", "eval"):
+                    e.oblige("view-creation-does-not-touch-the-cache-or-evaluate", False, detail=f"self.{name} used while creating a view")
+                raise Unsupported(f"self.{name}")
+
+            def m_getitem(self, e, key):
+                reads.append(key)
+                return VT("parent[]", T(f"read{len(reads) - 1}"))
+
+            def m_isinstance(self, e, clsname):
+                return clsname == "BlockSeries"
+
+        class Made(Model):
+            def __init__(s2, kw):
+                s2.kw = kw
+
+            def m_getitem(s2, e, key):
+                return VT("made[]", T(f"made{made.index(s2)}"), key)
+
+        def ctor(e, *a, **kw):
+            if a:
+                e.oblige("views-are-constructed-with-keyword-arguments", False)
+            m = Made(kw)
+            made.append(m)
+            return m
+
+        def np_empty(e, shp, dtype=None):
+            class Arr(Model):
+                def m_getitem(s2, e2, key):
+                    return Namespace("indexed", {"shape": T("numpy_result_shape", T("of_shape", shp), T("indexed_with", key))})
+            return Arr()
+        eng.globals.update({"BlockSeries": Builtin("BlockSeries", ctor), "zero": ZERO, "np": Namespace("np", {"empty": Builtin("np.empty", np_empty), "integer": TypeObj("integer")}),
+                            "slice": TypeObj("slice"), "int": TypeObj("int"), "list": TypeObj("list")})
+        parent = Parent()
+        res = eng.call(Closure(node, Env(None, {}), "__getitem__"), [parent, item], {})
+        eng.oblige("creating-a-view-reads-nothing", z3.BoolVal(not reads), detail=repr(reads)[:200])
+        ok = isinstance(res, Made)
+        eng.oblige("finite-only-index-returns-a-BlockSeries", z3.BoolVal(ok), detail=repr(res)[:200])
+        if not ok:
+            return
+        kw = res.kw
+        eng.oblige("view-keeps-the-number-of-infinite-dimensions", z3.BoolVal(kw.get("n_infinite") == ninf), detail=repr(kw.get("n_infinite")))
+        eng.oblige("view-keeps-the-dimension-names", z3.BoolVal(kw.get("dimension_names") is names), detail=repr(kw.get("dimension_names")))
+        orders = [SI(eng.fresh(f"order{q}")) for q in range(ninf)]
+
+        def same_key(key, want_items):
+            try:
+                items = eng.as_seq(key).items
+            except Exception:  # noqa: BLE001
+                return False
+            return len(items) == len(want_items) and all(x is y for x, y in zip(items, want_items))
+        if all_int:
+            shp = kw.get("shape")
+            eng.oblige("all-integer-index:view-is-a-scalar-series", z3.BoolVal(isinstance(shp, STup) and not shp.items and shp.tail is None), detail=repr(shp))
+            eng.oblige("all-integer-index:one-series-is-created", z3.BoolVal(len(made) == 1))
+            out = eng.call(kw["eval"], list(orders), {})
+            eng.oblige("all-integer-index:element-is-the-parent-element-at-item-plus-orders",
+                       z3.BoolVal(isinstance(out, T) and out.head == "parent[]" and len(reads) == 1 and same_key(reads[0], item_entries + orders)), detail=repr(out)[:200])
+            return
+        shp = kw.get("shape")
+        okshape = (isinstance(shp, T) and shp.head == "numpy_result_shape" and shp.args[0].args[0] is shape and same_key(shp.args[1].args[0], item_entries))
+        eng.oblige("array-index:view-shape-is-the-numpy-shape-of-indexing-the-finite-part", z3.BoolVal(okshape), detail=repr(shp)[:200])
+        eng.oblige("array-index:view-plus-one-packed-intermediate", z3.BoolVal(len(made) == 2 and made[1] is res), detail=f"{len(made)} series created")
+        if len(made) != 2:
+            return
+        pk = made[0].kw
+        pshape = pk.get("shape")
+        eng.oblige("packed-intermediate-is-a-scalar-series-over-the-same-orders",
+                   z3.BoolVal(isinstance(pshape, STup) and not pshape.items and pk.get("n_infinite") == ninf), detail=repr(pk.get("shape")))
+        pout = eng.call(pk["eval"], list(orders), {})
+        okp = (isinstance(pout, T) and pout.head == ".filled" and isinstance(pout.args[0], T) and pout.args[0].head == "parent[]" and pout.args[1] is ZERO
+               and len(reads) == 1 and same_key(reads[0], item_entries + orders))
+        eng.oblige("packed-element-is-the-parent-array-at-item-plus-orders-with-masked-entries-replaced-by-zero", z3.BoolVal(okp), detail=repr(pout)[:200])
+        vidx = [SI(eng.fresh(f"v{q}")) for q in range(nview)]
+        out = eng.call(kw["eval"], vidx + orders, {})
+        okv = (isinstance(out, T) and out.head == "[]" and isinstance(out.args[0], T) and out.args[0].head == "made[]" and out.args[0].args[0].head == "made0"
+               and same_key(out.args[0].args[1], orders) and same_key(out.args[1], vidx))
+        eng.oblige("array-index:element-(v,orders)-is-entry-v-of-the-packed-element-at-orders", z3.BoolVal(okv), detail=repr(out)[:300])
+    r = run_unit(f"series:BlockSeries.__getitem__[view,{'/'.join(kinds)},n_infinite={ninf}]", harness, functions=[(MODULE, "BlockSeries.__getitem__")], timeout_ms=timeout_ms)
+    r.bounded.append(f"{len(kinds)} finite dimensions of kinds {kinds}, n_infinite = {ninf} (index values, shape and orders symbolic)")
+    r.used_models.add("numpy's result shape of basic/advanced indexing is an uninterpreted function of (array shape, index): the view must ask numpy for exactly that")
+    return r
+
+
+# ======================================================================================
 # sentinels, __contains__, pop
 # ======================================================================================
 
